@@ -31,6 +31,7 @@ Apply(st, op, arg) ==
     CASE op = "GET" -> <<st, IF st.p THEN [t |-> "val", v |-> st.v] ELSE [t |-> "nil", v |-> ""]>>
       [] op = "SET" -> <<[p |-> TRUE, v |-> arg, ttl |-> FALSE], [t |-> "ok", v |-> "OK"]>>
       [] op = "DEL" -> <<Absent, IntRes(IF st.p THEN 1 ELSE 0)>>
+      [] op = "GETDEL" -> <<Absent, IF st.p THEN [t |-> "val", v |-> st.v] ELSE [t |-> "nil", v |-> ""]>>
       [] op = "APPEND" -> LET nv == (IF st.p THEN st.v ELSE "") \o arg IN
                           <<[p |-> TRUE, v |-> nv, ttl |-> st.p /\ st.ttl], IntRes(StrLen(nv))>>
       [] op = "SETNX" -> IF st.p THEN <<st, IntRes(0)>> ELSE <<[p |-> TRUE, v |-> arg, ttl |-> FALSE], IntRes(1)>>
@@ -44,7 +45,8 @@ With(f, k, v) == [x \in (DOMAIN f) \cup {k} |-> IF x = k THEN v ELSE f[x]]
 Expand(C, P) ==
     C \cup UNION {{LET r == Apply(cfg.st, P[c].op, P[c].arg) IN [st |-> r[1], done |-> With(cfg.done, c, r[2])]
                      : c \in (DOMAIN P) \ (DOMAIN cfg.done)} : cfg \in C}
-Closure(C, P) == Expand(Expand(Expand(Expand(C, P), P), P), P)       \* at most 4 clients
+RECURSIVE Closure(_, _)
+Closure(C, P) == LET E == Expand(C, P) IN IF E = C THEN C ELSE Closure(E, P)   \* fixpoint: any number of pending clients
 
 \* response of client c with observed result r
 Respond(C, P, c, r) ==
